@@ -322,7 +322,7 @@ func streamC30(h *H) {
 	// generated extras: version spellings, odd names, faults
 	verArgs := []string{"latest", "stable", "", "abc", "-1", "4294967296", "01", "2", "1", "1", "2", "+2", "2 ", "0x2", "3", "0"}
 	faults := []string{"none", "none", "none", "stat", "listkey", "listsnap", "savekey", "savecfg"}
-	n := h.N(60, 1500)
+	n := h.N(60, 800)
 	for i := 0; i < n; i++ {
 		c := c30Case{beKind: h.Pick([]string{"mem", "local"}), mode: "cli", polKind: "random"}
 		// mostly empty or nearly empty locations, so that the creating path is exercised
